@@ -223,23 +223,39 @@ func (c *Ctx) checkEffects(rule, fnKey string, f *ssa.Function, got, want []stri
 			got = ab
 		}
 	}
+	// a call made once with an argument merged by control flow (phi(a | b)) and the same call written once per
+	// alternative are the same set of calls
+	alts := func(s string) []string { return expandAlts(normEffect(s)) }
 	g, w := map[string]bool{}, map[string]bool{}
 	for _, s := range got {
-		g[normEffect(s)] = true
+		for _, a := range alts(s) {
+			g[a] = true
+		}
 	}
 	for _, s := range want {
-		w[normEffect(s)] = true
+		for _, a := range alts(s) {
+			w[a] = true
+		}
 	}
 	for _, s := range want {
-		if g[normEffect(s)] {
+		ok := true
+		for _, a := range alts(s) {
+			if !g[a] {
+				ok = false
+			}
+		}
+		if ok {
 			c.OK(rule, fnKey+" · "+s, f.Pos(), "effect present")
 		} else {
 			c.Bad(rule, fnKey+" · "+s, f.Pos(), "required effect missing; function's effects are: %s", strings.Join(got, " ;; "))
 		}
 	}
 	for _, s := range got {
-		if !w[normEffect(s)] {
-			c.Bad(rule, fnKey+" · unexpected", f.Pos(), "effect not in the specification table: %s", s)
+		for _, a := range alts(s) {
+			if !w[a] {
+				c.Bad(rule, fnKey+" · unexpected", f.Pos(), "effect not in the specification table: %s", s)
+				break
+			}
 		}
 	}
 }
@@ -300,14 +316,13 @@ func normEffect(s string) string {
 }
 
 func sameStringSet(a, b []string) bool {
-	a = append([]string(nil), a...)
-	for i := range a {
-		a[i] = normEffect(a[i])
+	exp := func(in []string) []string {
+		var out []string
+		for _, s := range in {
+			out = append(out, expandAlts(normEffect(s))...)
+		}
+		return uniqSorted(out)
 	}
-	b = append([]string(nil), b...)
-	for i := range b {
-		b[i] = normEffect(b[i])
-	}
-	x, y := uniqSorted(a), uniqSorted(b)
+	x, y := exp(a), exp(b)
 	return strings.Join(x, "\x00") == strings.Join(y, "\x00")
 }
